@@ -90,6 +90,7 @@ def main(argv=None):
     ap.add_argument('--opt', action='append', default=[],
                     help='key=value passed to the check (debugging)')
     ap.add_argument('--no-evidence', action='store_true')
+    ap.add_argument('--dump', help='write every violation (sig, what) as JSON lines to this file (debugging)')
     args = ap.parse_args(argv)
     prop = args.prop.upper()
     try:
@@ -129,6 +130,10 @@ def main(argv=None):
             hit[i] = hit.get(i, 0) + 1
         else:
             unknown.setdefault(v['sig'], v)
+    if args.dump:
+        with open(args.dump, 'w') as f:
+            for v in rep.violations:
+                f.write(json.dumps(dict(sig=v['sig'], what=v['what'])) + '\n')
     for i in sorted(hit):
         print(f"KNOWN-FINDING: property={prop} {known[i]['what']} "
               f"[sig={known[i]['sig']} occurrences={hit[i]}]")
